@@ -229,7 +229,7 @@ func (s *Solver) Check(extra *Term, wantModel bool) (Result, Model) {
 		s.send("(pop 1)\n")
 	}
 	d := time.Since(start)
-	if d > 10*time.Second || res == Unknown {
+	if d > slowThreshold || res == Unknown {
 		if dir := os.Getenv("GOSYM_SLOWDIR"); dir != "" {
 			s.dumpQuery(dir, extra, d, res)
 		}
@@ -535,6 +535,13 @@ func solverBin() string {
 }
 
 // dumpQuery writes the current query as a standalone script (diagnostics).
+var slowThreshold = func() time.Duration {
+	if ms, err := strconv.Atoi(os.Getenv("GOSYM_SLOWMS")); err == nil && ms > 0 {
+		return time.Duration(ms) * time.Millisecond
+	}
+	return 10 * time.Second
+}()
+
 func (s *Solver) dumpQuery(dir string, extra *Term, d time.Duration, res Result) {
 	var sb strings.Builder
 	defined := map[*Term]bool{}
